@@ -192,7 +192,7 @@ class C02(PropCheck):
               'From Elfi Require Import Base.Harness Graph.Net Graph.Denote Graph.Determinism.\nImport ListNotations.\n')
     case_type = 'Determinism.case'
     preds = (('Determinism.agree', 'agree'), ('Determinism.ok', 'ok'))
-    chunk = 80
+    chunk = 40
     build_targets = ('Graph/Determinism.vo',)
     rule = ('random named DAGs built twice in different valid insertion orders (recording operations; call order = order of draws '
             'from the batch generator), run with one seed, the second run after reseeding/consuming np.random and unrelated '
